@@ -30,7 +30,16 @@ type mod4 struct {
 
 func randMod4(rng *rand.Rand, other *dhcpv4.DHCPv4) mod4 {
 	ip := net.IP(randBytes(rng, 4))
-	switch rng.Intn(22) {
+	switch rng.Intn(24) {
+	case 22:
+		ns := randNames(rng)
+		if len(ns) == 0 {
+			ns = []string{randName(rng)}
+		}
+		return mod4{map[string]any{"k": "names", "v": namesJSON(ns)}, dhcpv4.WithDomainSearchList(ns...)}
+	case 23:
+		id := randBytes(rng, 1+rng.Intn(9))
+		return mod4{map[string]any{"k": "opt", "c": 61, "v": B(id)}, dhcpv4.WithOption(dhcpv4.OptClientIdentifier(id))}
 	case 0:
 		var x dhcpv4.TransactionID
 		copy(x[:], randBytes(rng, 4))
